@@ -221,7 +221,7 @@ package tchannel
 
 //@ func (response *InboundCallResponse) doneSending()
 //@   requires response.timeNow != nil && response.statsReporter != nil && response.cancel != nil && response.mex != nil && MexSetOK(response.mex.mexset)
-//@   modifies allbut errAttempts, own, Frame, InboundCallResponse, InboundCall, readableFragment
+//@   modifies allbut errAttempts, sysErrID, sysErrCode, sysErrMsg, own, Frame, InboundCallResponse, InboundCall, readableFragment
 //@   label context-cancelled-on-completion
 //@   ensures ncancel(old(response.cancel)) == old(ncancel(response.cancel)) + 1
 //@   property C14
